@@ -44,6 +44,11 @@ def plain_to_coq(c, r):
     a, b = cparts(r["parts"]), cparts(r["re"])
     return f"({cstr(c['s'])}, {a}, {cstr(r['plain'])}, {b})"
 
+def cased_to_coq(c, r):
+    if "exc" in r: return None
+    ok = "true" if r["cls"] == "SigmaCasedString" else "false"
+    return f"({cstr(c['s'])}, {cparts(r['conv'])}, {cparts(r['direct'])}, {cparts(r['after'])}, {ok})"
+
 def bs_adjacent(s):
     """literal backslash directly followed by wildcard / literal wildcard char / backslash (source-level scan)"""
     import re
@@ -300,6 +305,7 @@ PROPERTY = Property(
     pid="C05", props_file="Props/C05.v",
     suites=[
         Suite("plain", gen_plain, "run_plain", REQ, "judge_plain", plain_to_coq, known=known_plain, mutate=mutate_str),
+        Suite("cased", gen_plain, "run_cased", REQ, "judge_cased", cased_to_coq, mutate=mutate_str),
         Suite("convert", gen_convert, "run_convert", REQ, "judge_convert", convert_to_coq, known=known_convert, mutate=mutate_str),
         Suite("regex", gen_regex, "run_regex", REQ, "judge_regex", regex_to_coq, mutate=mutate_str),
         Suite("quoted", gen_quoted, "run_quoted", REQ, "judge_quoted", quoted_to_coq, known=known_quoted, mutate=mutate_str),
